@@ -13,7 +13,11 @@ import BtcVerif.Basic.Bytes
 
 namespace BtcVerif
 
-/-- number of bytes of the minimal big-endian representation; Python `(v.bit_length()+7) >> 3` -/
+/-- CPython's `int.bit_length()` for non-negative ints -/
+def bitLength (v : Nat) : Nat := if v = 0 then 0 else Nat.log2 v + 1
+
+/-- number of bytes of the minimal big-endian representation; Python `(v.bit_length()+7) >> 3`
+    (`Proofs/Compact.lean: nbytes_eq_bitlength` proves `nbytes v = (bitLength v + 7) / 8`) -/
 def nbytes (v : Nat) : Nat := if h : v = 0 then 0 else nbytes (v / 256) + 1
 decreasing_by omega
 
@@ -35,10 +39,15 @@ def toCompact (v : Nat) : Nat :=
   if (compact / 2 ^ 23) % 2 = 1 then (compact / 2 ^ 8) + (nb + 1) * 2 ^ 24
   else compact + nb * 2 ^ 24
 
-/-- serialize.py `uint256_from_str` on a 32-byte string -/
-def uint256FromStr (h : Bytes) : Nat := leNat (h.take 32)
+/-- serialize.py `uint256_from_str`: `struct.unpack("<IIIIIIII", s[:32])` raises `struct.error`
+    when fewer than 32 bytes are available -/
+def uint256FromStr (h : Bytes) : Option Nat :=
+  if h.length < 32 then none else some (leNat (h.take 32))
 
-inductive PowResult | ok | errPow
+inductive PowResult
+  | ok
+  | errPow       -- CheckProofOfWorkError (validation-error family)
+  | pyStructError  -- struct.error escaping from uint256_from_str (hash shorter than 32 bytes)
 deriving DecidableEq, Repr
 
 /-- core/__init__.py `CheckProofOfWork` (with the sign-bit guard; D13) -/
@@ -47,8 +56,10 @@ def checkPoW (limit : Nat) (hash : Bytes) (nBits : Nat) : PowResult :=
   else
     let target := fromCompact nBits
     if ¬ (0 < target ∧ target ≤ limit) then .errPow
-    else if uint256FromStr hash > target then .errPow
-    else .ok
+    else
+      match uint256FromStr hash with
+      | none => .pyStructError
+      | some h => if h > target then .errPow else .ok
 
 end Model
 
